@@ -155,7 +155,7 @@ func main() {
 			for _, rv := range res {
 				w.escapes(rv, e.fd.Pos(), name, 0, map[*aobj]bool{})
 			}
-			if len(w.held) > 0 {
+			if len(realHeld(w.held)) > 0 {
 				w.diag(e.fd.Body.Rbrace, "entry point %s returns holding %s", name, heldString(w.held))
 			}
 			out.Entries = append(out.Entries, entryOut{Name: name, Init: e.init, Accesses: w.out})
